@@ -1,5 +1,6 @@
 mod fw;
 mod gen;
+mod gen_mesh;
 mod oracle;
 mod props;
 
@@ -10,6 +11,7 @@ macro_rules! dispatch {
     ($id:expr, $f:ident, $($arg:expr),*) => {
         match $id {
             "C01" => fw::$f::<props::c01::C01>($($arg),*),
+            "C02" => fw::$f::<props::c02::C02>($($arg),*),
             "C04" => fw::$f::<props::c04::C04>($($arg),*),
             "C05" => fw::$f::<props::c05::C05>($($arg),*),
             "C06" => fw::$f::<props::c06::C06>($($arg),*),
